@@ -240,6 +240,8 @@ static void n_delete_self(struct node* n) {
 #define HP_TCB_begin(t) hp_tcb_begin(&(t))
 #define HP_TCB_end(t) hp_tcb_end(&(t))
 static size_t hp_dyn_number_of_hps(const struct tcb* self); static size_t he_dyn_number_of_hes(const struct tcb* self);   /* defined later in lowered.h */
+struct vec; static void hp_dyn_tcb_gather(const struct tcb* self, struct vec* v); static void he_dyn_tcb_gather(const struct tcb* self, struct vec* v);
+static void hp_tcb_abandon(struct tcb* self); static void he_tcb_abandon(struct tcb* self);
 #ifdef XV_DYNAMIC
 #define HP_TCB_number_of_hps(t) hp_dyn_number_of_hps(&(t))
 #define HE_TCB_number_of_hes(t) he_dyn_number_of_hes(&(t))
@@ -479,8 +481,9 @@ void h_scan(void) {
       XV_OBL(OBL_CONSERVE, (npool(j).deleted == 1 && o == 0) || (npool(j).deleted == 0 && o == 1));
       if (prot) { XV_OBL(OBL_SPARES, npool(j).deleted == 0 && o == 1); if (is_own(j)) XV_CANARY("scan.own_spared"); else XV_CANARY("scan.adopted_spared");
 #ifdef XV_DYNAMIC
-        { _Bool saved_nb = in_nb != 0; unsigned nb0 = in_nb; in_nb = 0; _Bool without_blocks = PROTECTED(j); in_nb = nb0;     /* protected ONLY by a slot of a dynamic block */
-          if (!without_blocks) { XV_CANARY("scan.protected_by_dynamic_block"); if (nb0 == 2) XV_CANARY("scan.protected_by_second_block_maybe"); } (void)saved_nb; }
+        { unsigned nb0 = in_nb; in_nb = 0; _Bool without_blocks = PROTECTED(j); in_nb = nb0 ? 1 : 0; _Bool first_only = PROTECTED(j); in_nb = nb0;
+          if (!without_blocks) XV_CANARY("scan.protected_by_dynamic_block");          /* protected ONLY by a slot of a dynamic block */
+          if (!first_only) XV_CANARY("scan.protected_by_second_block"); }            /* ... ONLY by a slot of the second chained block */
 #endif
       }
       else { XV_OBL("hpscan.skips_inactive", npool(j).deleted == 1 && o == 0); if (is_own(j)) XV_CANARY("scan.own_deleted"); else XV_CANARY("scan.adopted_deleted"); }
